@@ -29,7 +29,8 @@ type routerAccess struct {
 
 type delivery struct {
 	fn      *ssa.Function
-	send    *ssa.Send
+	send    ssa.Instruction // *ssa.Send, or the *ssa.Select of a delivery bounded by the router's done channel
+	bounded bool            // a deliver-select
 	key     ssa.Value // the id the router was found under
 	val     ssa.Value
 	viaLoop bool // found by ranging over the map
@@ -107,14 +108,28 @@ func buildRouterModel(l *core.Ledger, r *rt, rule string) *routerModel {
 				}
 			}
 		})
-		// deliveries: sends on the c field of a router value taken from the map
+		// deliveries: sends on the c field of a router value taken from the map - plain sends, and
+		// sends inside a select whose other case is the router's done channel
 		sx.AllInstrs(fn, func(_ sx.Node, in ssa.Instruction) {
-			snd, ok := in.(*ssa.Send)
-			if !ok || !isResponseChan(snd.Chan.Type()) {
+			var ch, val ssa.Value
+			bounded := false
+			switch x := in.(type) {
+			case *ssa.Send:
+				if !isResponseChan(x.Chan.Type()) {
+					return
+				}
+				ch, val = x.Chan, x.X
+			case *ssa.Select:
+				si, _, ok := deliverSelect(x)
+				if !ok {
+					return
+				}
+				ch, val, bounded = x.States[si].Chan, x.States[si].Send, true
+			default:
 				return
 			}
-			d := &delivery{fn: fn, send: snd, val: snd.X, name: fnKey(fn)}
-			okSrc := sx.All(sx.Origins(snd.Chan), func(o sx.Origin) bool {
+			d := &delivery{fn: fn, send: in, val: val, name: fnKey(fn), bounded: bounded}
+			okSrc := sx.All(sx.Origins(ch), func(o sx.Origin) bool {
 				if o.Kind != sx.KField || o.Field == nil || !isResponseChan(o.Field.Type()) {
 					return false
 				}
